@@ -147,7 +147,7 @@ func (nm LNumber) Format(f fmt.State, c rune) {
 		defaultFormat(int64(nm), f, c)
 	case 'o', 'x', 'X':
 		// unsigned conversions: C prints the two's complement of a negative value
-		defaultFormat(uint64(int64(nm)), unsignedFmtState{f}, c)
+		formatInteger(unsignedFmtState{f}, c, uint64(int64(nm)))
 	case 'e', 'E', 'f', 'F', 'g', 'G':
 		defaultFormat(float64(nm), f, c)
 	case 'i':
